@@ -1880,26 +1880,26 @@ impl Typer {
                 let name = &hint;
                 let mut args_tast = Vec::new();
                 let mut arg_types = Vec::new();
-                for arg in args.iter() {
-                    let arg_tast = self.infer_expr(genv, local_env, diagnostics, *arg);
-                    arg_types.push(arg_tast.get_ty());
-                    args_tast.push(arg_tast);
-                }
-                if let Some(func_ty) = lookup_function_type_by_hint(genv, name.as_str()) {
-                    let inst_ty = self.inst_ty(&func_ty);
-                    if let tast::Ty::TFunc { params, .. } = &inst_ty
-                        && params.len() == args.len()
-                        && !params.is_empty()
-                    {
-                        args_tast.clear();
-                        arg_types.clear();
-                        for (arg, expected_ty) in args.iter().zip(params.iter()) {
-                            let arg_tast =
-                                self.check_expr(genv, local_env, diagnostics, *arg, expected_ty);
-                            arg_types.push(arg_tast.get_ty());
-                            args_tast.push(arg_tast);
-                        }
+                let func_ty = lookup_function_type_by_hint(genv, name.as_str());
+                let inst_ty = func_ty.as_ref().map(|func_ty| self.inst_ty(func_ty));
+                if let Some(tast::Ty::TFunc { params, .. }) = &inst_ty
+                    && params.len() == args.len()
+                    && !params.is_empty()
+                {
+                    for (arg, expected_ty) in args.iter().zip(params.iter()) {
+                        let arg_tast =
+                            self.check_expr(genv, local_env, diagnostics, *arg, expected_ty);
+                        arg_types.push(arg_tast.get_ty());
+                        args_tast.push(arg_tast);
                     }
+                } else {
+                    for arg in args.iter() {
+                        let arg_tast = self.infer_expr(genv, local_env, diagnostics, *arg);
+                        arg_types.push(arg_tast.get_ty());
+                        args_tast.push(arg_tast);
+                    }
+                }
+                if let Some(inst_ty) = inst_ty {
 
                     let ret_ty = if name.as_str() == "ref" && args_tast.len() == 1 {
                         let elem_ty =
@@ -1975,22 +1975,21 @@ impl Typer {
                 {
                     let mut args_tast = Vec::new();
                     let mut arg_types = Vec::new();
-                    for arg in args.iter() {
-                        let arg_tast = self.infer_expr(genv, local_env, diagnostics, *arg);
-                        arg_types.push(arg_tast.get_ty());
-                        args_tast.push(arg_tast);
-                    }
 
                     let inst_ty = self.inst_ty(&func_ty);
                     if let tast::Ty::TFunc { params, .. } = &inst_ty
                         && params.len() == args.len()
                         && !params.is_empty()
                     {
-                        args_tast.clear();
-                        arg_types.clear();
                         for (arg, expected_ty) in args.iter().zip(params.iter()) {
                             let arg_tast =
                                 self.check_expr(genv, local_env, diagnostics, *arg, expected_ty);
+                            arg_types.push(arg_tast.get_ty());
+                            args_tast.push(arg_tast);
+                        }
+                    } else {
+                        for arg in args.iter() {
+                            let arg_tast = self.infer_expr(genv, local_env, diagnostics, *arg);
                             arg_types.push(arg_tast.get_ty());
                             args_tast.push(arg_tast);
                         }
